@@ -5,7 +5,7 @@
 # "ok ..." (exit 0) or "FAIL ..." (exit 1).
 set -u
 cd /verif || exit 2
-export GOFLAGS=-mod=mod GOPROXY=off GOSUMDB=off GOTOOLCHAIN=local
+export GOFLAGS=-mod=mod GOPROXY=off GOSUMDB=off GOTOOLCHAIN=local GOVC_PARALLEL=${GOVC_PARALLEL:-4}
 patch=$(readlink -f "$1"); rev=$2; prop=$3; expect=$4; name=$5
 T=$(mktemp -d "${TMPDIR:-/tmp}/govc-selftest.XXXXXX") || exit 2
 trap 'rm -rf "$T"' EXIT INT TERM
